@@ -949,6 +949,123 @@ mut("ok-advance-helper", "benign", ["C13", "C14", "C18"], "try_advance's per-par
     /// Attempts to advance the global epoch.
     ///
     /// The global epoch can advance only if""")])
+mut("ok-iter-release-helper", "benign", ["C10", "C04"], "NewRcIter::abort and drop share a private helper (two call sites)",
+    [ed(S, """    pub fn abort(self, guard: &Guard) {
+        if self.remain > 0 {
+            unsafe {
+                RcInner::decrement_strong(self.ptr.as_raw(), self.remain as _, Some(guard));
+            };
+        }
+        forget(self);
+    }
+}""", """    pub fn abort(self, guard: &Guard) {
+        self.release(Some(guard));
+        forget(self);
+    }
+
+    #[inline]
+    fn release(&self, guard: Option<&Guard>) {
+        if self.remain > 0 {
+            unsafe {
+                RcInner::decrement_strong(self.ptr.as_raw(), self.remain as _, guard);
+            };
+        }
+    }
+}"""),
+     ed(S, """    fn drop(&mut self) {
+        if self.remain > 0 {
+            unsafe {
+                RcInner::decrement_strong(self.ptr.as_raw(), self.remain as _, None);
+            };
+        }
+    }""", """    fn drop(&mut self) {
+        self.release(None);
+    }""")])
+mut("ok-store-is-null", "benign", ["C08", "C01"], "AtomicRc::store tests is_null instead of as_mut()",
+    [ed(S, """            if let Some(cnt) = old_ptr.as_raw().as_mut() {
+                RcInner::decrement_strong(cnt, 1, Some(guard));
+            }""", """            if !old_ptr.is_null() {
+                RcInner::decrement_strong(old_ptr.as_raw(), 1, Some(guard));
+            }""")])
+mut("ok-upgrade-match", "benign", ["C05", "C01"], "Weak::upgrade written with match + bool::then",
+    [ed(W, """        let Some(obj) = (unsafe { self.ptr.as_raw().as_ref() }) else {
+            return Some(Rc::from_raw(self.ptr));
+        };
+        if obj.try_increment_strong() {
+            return Some(Rc::from_raw(self.ptr));
+        }
+        None""", """        match unsafe { self.ptr.as_raw().as_ref() } {
+            None => Some(Rc::from_raw(self.ptr)),
+            Some(obj) => {
+                if !obj.try_increment_strong() {
+                    return None;
+                }
+                Some(Rc::from_raw(self.ptr))
+            }
+        }""")])
+mut("ok-cas-while-let", "benign", ["C08"], "AtomicRc::compare_exchange_tag loop as while-let",
+    [ed(S, """        loop {
+            match self
+                .link
+                .compare_exchange(expected_raw, desired_raw, success, failure)
+            {
+                Ok(current_raw) => return Ok(Snapshot::from_raw(current_raw, guard)),
+                Err(current_raw) => {
+                    if current_raw.ptr_eq(expected_raw) {
+                        expected_raw = current_raw;
+                    } else {
+                        return Err(CompareExchangeError {
+                            desired: Snapshot::from_raw(desired_raw, guard),
+                            current: Snapshot::from_raw(current_raw, guard),
+                        });
+                    }
+                }
+            }
+        }""", """        let mut res = self
+            .link
+            .compare_exchange(expected_raw, desired_raw, success, failure);
+        while let Err(current_raw) = res {
+            if !current_raw.ptr_eq(expected_raw) {
+                return Err(CompareExchangeError {
+                    desired: Snapshot::from_raw(desired_raw, guard),
+                    current: Snapshot::from_raw(current_raw, guard),
+                });
+            }
+            expected_raw = current_raw;
+            res = self
+                .link
+                .compare_exchange(expected_raw, desired_raw, success, failure);
+        }
+        Ok(Snapshot::from_raw(res.ok().unwrap(), guard))""")])
+mut("ok-rc-drop-early-return", "benign", ["C01", "C04"], "Rc::drop with an early return on null",
+    [ed(S, """        unsafe {
+            if let Some(cnt) = self.ptr.as_raw().as_mut() {
+                RcInner::decrement_strong(cnt, 1, None);
+            }
+        }
+    }
+}
+
+impl<T: RcObject + PartialEq> PartialEq for Rc<T> {""", """        if self.is_null() {
+            return;
+        }
+        unsafe {
+            RcInner::decrement_strong(self.ptr.as_raw(), 1, None);
+        }
+    }
+}
+
+impl<T: RcObject + PartialEq> PartialEq for Rc<T> {""")])
+mut("ok-inc-weak-loop", "benign", ["C03"], "increment_weak's first-share loop as loop+match with explicit break",
+    [ed(U, """        while !old.weaked() {
+            // In this case, `increment_weak` must have been called from `Rc::downgrade`,
+            // guaranteeing weak > 0, so it can\u2019t be incremented from 0.
+            debug_assert!(old.weak() != 0);
+            match self.state.compare_exchange(""", """        loop {
+            if old.weaked() {
+                break;
+            }
+            match self.state.compare_exchange(""")])
 mut("ok-depth-cap-2048", "benign", ["C06"], "depth cap raised to 2048 (C06 unaffected; C07 finding key changes)",
     [ed(U, "if depth >= 1024 {", "if depth >= 1024 + 0 {")])
 
